@@ -259,6 +259,14 @@ Fixpoint ilinked (g : addr) (he : N) (run : list info) : Prop :=
       i_gen P = g /\ he <= i_height P /\ i_mhg P < i_height P /\ i_height Q = i_mhg P /\ ilinked g he rest
   end.
 
+Lemma ilinked_cons2 : forall g he P Q rest, ilinked g he (P :: Q :: rest) <->
+  (i_gen P = g /\ he <= i_height P /\ i_mhg P < i_height P /\ i_height Q = i_mhg P /\ ilinked g he (Q :: rest)).
+Proof. intros. reflexivity. Qed.
+Lemma linked_cons2 : forall (B V : Type) (height mhg : B -> N) (gen : B -> V) (anc : B -> B -> Prop) v A P Q rest,
+  linked B V height mhg gen anc v A (P :: Q :: rest) <->
+  (gen P = v /\ anc A P /\ mhg P < height P /\ height Q = mhg P /\ linked B V height mhg gen anc v A (Q :: rest)).
+Proof. intros. reflexivity. Qed.
+
 Lemma hts_nth_height : forall l tip h e, hts l tip -> In e l -> i_height e <= h <= tip ->
   exists x, nth_error l (N.to_nat (tip - h)) = Some x /\ i_height x = h.
 Proof.
@@ -362,38 +370,34 @@ Section Static.
 
   (* ---------------------------------------------------------------- one vote update, static parameters *)
   Definition pvb (nw : info) (he : N) : bool := (i_mhg nw <? i_height nw) && (i_mhg nw + 1 <=? he).
-  Definition pcb (w0 : list info) (act : list active) (a : info) : bool :=
-    match w0 with
-    | [] => false
-    | nw :: _ =>
-      (i_mhg nw <? i_height nw) &&
-      match find_active act (i_gen nw) with
-      | Some vi => (Nmax3 (a_min vi) (height_not_prevoted w0 + 1) (a_lhp vi + 1) <=? i_height a) && (p_pv p0 <=? i_pv a)
-      | None => false
-      end
+  Definition pcb (nw : info) (w0 : list info) (act : list active) (a : info) : bool :=
+    (i_mhg nw <? i_height nw) &&
+    match find_active act (i_gen nw) with
+    | Some vi => (Nmax3 (a_min vi) (height_not_prevoted w0 + 1) (a_lhp vi + 1) <=? i_height a) && (p_pv p0 <=? i_pv a)
+    | None => false
     end.
   Definition upd_rel (w0 : list info) (act : list active) (nw : info) (a e1 : info) : Prop :=
     static e1 = static a /\
     i_pv e1 = i_pv a + (if pvb nw (i_height a) then wt (i_gen nw) else 0) /\
-    i_pc e1 = i_pc a + (if pcb w0 act a then wt (i_gen nw) else 0).
+    i_pc e1 = i_pc a + (if pcb nw w0 act a then wt (i_gen nw) else 0).
 
   Lemma update_votes_static : forall nw tl act r act',
     desc (nw :: tl) -> (forall x, In x (nw :: tl) -> gh < i_height x) -> AInv act ->
     update_votes ps0 (nw :: tl) act = Ok (r, act') ->
     Forall2 (upd_rel (nw :: tl) act nw) (nw :: tl) r /\
     AInv act' /\ (forall g', lhp act g' <= lhp act' g') /\
-    (forall a, In a (nw :: tl) -> pcb (nw :: tl) act a = true -> i_height a <= lhp act' (i_gen nw)).
+    (forall a, In a (nw :: tl) -> pcb nw (nw :: tl) act a = true -> i_height a <= lhp act' (i_gen nw)).
   Proof.
     intros nw tl act r act' Hd Hgh HA H.
     unfold update_votes in H. set (w0 := nw :: tl) in *.
     destruct (i_height nw <=? i_mhg nw) eqn:Ev.
     { injection H as <- <-. split; [|split; [exact HA|split; [intros; lia|]]].
-      - apply Forall2_refl_on. intros a Ha. unfold upd_rel, pvb, pcb. fold w0.
+      - apply Forall2_refl_on. intros a Ha. unfold upd_rel, pvb, pcb.
         assert (i_mhg nw <? i_height nw = false) as -> by lia. cbn [andb]. repeat split; try reflexivity; lia.
       - intros a Ha Hc. unfold pcb in Hc. assert (i_mhg nw <? i_height nw = false) as E by lia. rewrite E in Hc. discriminate. }
     destruct (find_active act (i_gen nw)) as [vi|] eqn:Ea.
     2:{ injection H as <- <-. split; [|split; [exact HA|split; [intros; lia|]]].
-      - apply Forall2_refl_on. intros a Ha. unfold upd_rel, pcb. fold w0. rewrite Ea.
+      - apply Forall2_refl_on. intros a Ha. unfold upd_rel, pcb. rewrite Ea.
         assert (wt (i_gen nw) = 0) as -> by (unfold wt, weight; rewrite (proj2 (HA (i_gen nw)) Ea); reflexivity).
         rewrite andb_false_r. destruct (pvb nw (i_height a)); repeat split; try reflexivity; lia.
       - intros a Ha Hc. unfold pcb in Hc. rewrite Ea, andb_false_r in Hc. discriminate. }
@@ -409,15 +413,15 @@ Section Static.
     destruct (HA (i_gen nw)) as [HA1 _]. destruct (HA1 vi Ea) as [Hmin Hw].
     destruct (find_weight vals (i_gen nw)) as [w|] eqn:Ew; [|congruence].
     assert (Hwt : wt (i_gen nw) = w) by (unfold wt, weight; rewrite Ew; reflexivity).
-    pose proof (precommit_loop_first _ _ _ _ _ _ _ Hd Epc) as Hfirst. cbv zeta in Hfirst.
+    pose proof (precommit_loop_first _ _ _ _ _ _ _ Hd Epc) as Hfirst. cbv beta zeta in Hfirst.
     assert (Hcond : forall a, In a w0 ->
               (minpc <=? i_height a) && match get_params ps0 (i_height a) with Ok p => p_pv p <=? i_pv a | Error _ => false end
-              = pcb w0 act a).
-    { intros a Ha. unfold pcb. fold w0. rewrite Ea. fold minpc. rewrite get_ps0. specialize (Hgh a Ha).
+              = pcb nw w0 act a).
+    { intros a Ha. unfold pcb. rewrite Ea. fold minpc. rewrite get_ps0. specialize (Hgh a Ha).
       assert (gh + 1 <=? i_height a = true) as -> by lia. assert (i_mhg nw <? i_height nw = true) as -> by lia. reflexivity. }
     split; [|split; [|split]].
     - eapply Forall2_impl_in; [|exact (Forall2_comp _ _ _ _ _ Hpc Hpv)].
-      intros a e1 Ha (b & Hab & Hbe). specialize (Hgh a Ha). rewrite <- (Hcond a Ha).
+      intros a e1 Ha (b & Hab & Hbe). specialize (Hgh a Ha). unfold upd_rel. rewrite <- (Hcond a Ha).
       unfold pc_step in Hab. unfold pv_step in Hbe. rewrite get_ps0.
       assert (gh + 1 <=? i_height a = true) as -> by lia.
       assert (Hb : static b = static a /\ i_pv b = i_pv a /\
@@ -429,7 +433,7 @@ Section Static.
         unfold add_pc, static; cbn. repeat split; try reflexivity; lia. }
       destruct Hb as (Hb1 & Hb2 & Hb3).
       assert (Hbh : i_height b = i_height a) by (unfold static in Hb1; congruence).
-      unfold upd_rel. rewrite <- Hb3, <- Hb2, <- Hb1. unfold pvb.
+      rewrite <- Hb3, <- Hb2, <- Hb1. unfold pvb.
       assert (i_mhg nw <? i_height nw = true) as -> by lia. cbn [andb].
       assert (Hmv : (minpv <=? i_height b) = (i_mhg nw + 1 <=? i_height a)) by (unfold minpv; lia).
       rewrite Hmv in Hbe. destruct (i_mhg nw + 1 <=? i_height a).
@@ -453,4 +457,522 @@ Section Static.
       + rewrite (Hfirst a Ha) in Hc. discriminate.
   Qed.
 
+
+  (* ---------------------------------------------------------------- chains, views *)
+  Definition chain := list block.
+  Definition dhdr : hdr := {| h_height := 0; h_gen := 0; h_mhg := 0; h_mhp := 0; h_cert := None |}.
+  Definition lastH (K : chain) : hdr := fst (last K (dhdr, None)).
+  Definition hgt (K : chain) : N := h_height (lastH K).
+  Definition mhgC (K : chain) : N := h_mhg (lastH K).
+  Definition mhpC (K : chain) : N := h_mhp (lastH K).
+  Definition genC (K : chain) : addr := h_gen (lastH K).
+  Definition tipof (K : chain) : N := gh + N.of_nat (length K).
+  Definition blk (K : chain) (h : N) : chain := firstn (N.to_nat (h - gh)) K.
+
+  (* one block of a valid chain over the static validator set: no parameter change, next height, the two BFT rules of
+     verifyBlock hold in the current view, BeforeTransactionsExecute succeeds *)
+  Definition step (s : store) (tip : N) (x : block) : option store :=
+    match snd x with
+    | Some _ => None
+    | None => if (h_height (fst x) =? tip + 1) && bft_valid s (fst x)
+              then match before_txs batch s (fst x) with Ok s' => Some s' | Error _ => None end
+              else None
+    end.
+  Fixpoint vrun (s : store) (tip : N) (K : chain) : option store :=
+    match K with
+    | [] => Some s
+    | x :: tl => match step s tip x with Some s' => vrun s' (tip + 1) tl | None => None end
+    end.
+  Definition view (K : chain) : option store := vrun s0 gh K.
+  Definition valid_chain (K : chain) : Prop := view K <> None.
+
+  Lemma step_some : forall s tip x s1, step s tip x = Some s1 ->
+    exists b, x = (b, None) /\ h_height b = tip + 1 /\ bft_valid s b = true /\ before_txs batch s b = Ok s1.
+  Proof.
+    intros s tip [b chg] s1 H. unfold step in H. cbn [fst snd] in H. destruct chg; [discriminate|].
+    destruct ((h_height b =? tip + 1) && bft_valid s b) eqn:E; [|discriminate].
+    destruct (before_txs batch s b) as [s'|e] eqn:Eb; [|discriminate]. injection H as <-.
+    apply andb_prop in E. destruct E as [E1 E2]. exists b. repeat split; auto. lia.
+  Qed.
+  Lemma step_intro : forall s tip b s1, h_height b = tip + 1 -> bft_valid s b = true -> before_txs batch s b = Ok s1 ->
+    step s tip (b, None) = Some s1.
+  Proof.
+    intros s tip b s1 H1 H2 H3. unfold step. cbn [fst snd]. rewrite H2, H3.
+    assert (h_height b =? tip + 1 = true) as -> by lia. reflexivity.
+  Qed.
+
+  Lemma vrun_app : forall K1 K2 s tip, vrun s tip (K1 ++ K2) =
+    match vrun s tip K1 with Some s1 => vrun s1 (tip + N.of_nat (length K1)) K2 | None => None end.
+  Proof.
+    induction K1 as [|x K1 IH]; intros K2 s tip; cbn [app vrun length].
+    - rewrite N.add_0_r. reflexivity.
+    - destruct (step s tip x) as [s'|]; [|reflexivity]. rewrite IH.
+      replace (tip + 1 + N.of_nat (length K1)) with (tip + N.of_nat (S (length K1))) by lia. reflexivity.
+  Qed.
+  Lemma view_snoc : forall K x s1, view (K ++ [x]) = Some s1 <-> exists s, view K = Some s /\ step s (tipof K) x = Some s1.
+  Proof.
+    intros K x s1. unfold view. rewrite vrun_app. fold (tipof K). split.
+    - destruct (vrun s0 gh K) as [s|]; [|discriminate]. cbn [vrun]. intros H. exists s. split; [reflexivity|].
+      destruct (step s (tipof K) x); [exact H|discriminate].
+    - intros (s & -> & H). cbn [vrun]. rewrite H. reflexivity.
+  Qed.
+  Lemma view_prefix : forall K K' s, view K = Some s -> prefix K' K -> exists s', view K' = Some s'.
+  Proof.
+    intros K K' s H [t ->]. unfold view in *. rewrite vrun_app in H. destruct (vrun s0 gh K') as [s'|]; [eauto|discriminate].
+  Qed.
+  Lemma view_nil : view [] = Some s0.
+  Proof. reflexivity. Qed.
+
+  Lemma view_ind0 : forall (Q : chain -> store -> Prop), Q [] s0 ->
+    (forall K s b s1, view K = Some s -> Q K s -> h_height b = tipof K + 1 -> bft_valid s b = true ->
+                      before_txs batch s b = Ok s1 -> Q (K ++ [(b, None)]) s1) ->
+    forall K s, view K = Some s -> Q K s.
+  Proof.
+    intros Q Q0 QS K. induction K as [|x K IH] using rev_ind; intros s H.
+    - rewrite view_nil in H. injection H as <-. exact Q0.
+    - apply view_snoc in H. destruct H as (s' & Hv & Hs). apply step_some in Hs.
+      destruct Hs as (b & -> & Hb & Hval & Hbt). eapply QS; eauto.
+  Qed.
+
+  (* the chain is what run_blocks executes *)
+  Lemma vrun_run_blocks : forall K s tip s', vrun s tip K = Some s' ->
+    run_blocks batch s K = Ok s' /\ consecutive tip K /\ Forall (fun x => snd x = None) K.
+  Proof.
+    induction K as [|x K IH]; intros s tip s' H; cbn [vrun] in H.
+    - injection H as <-. repeat split; constructor.
+    - destruct (step s tip x) as [s1|] eqn:E; [|discriminate]. apply step_some in E.
+      destruct E as (b & -> & Hb & Hval & Hbt). destruct (IH _ _ _ H) as (H1 & H2 & H3).
+      cbn [run_blocks apply_block]. rewrite Hbt. cbn [bind]. repeat split; auto.
+  Qed.
+
+  Lemma lastH_snoc : forall K x, lastH (K ++ [x]) = fst x.
+  Proof. intros K x. unfold lastH. rewrite last_last. reflexivity. Qed.
+  Lemma firstn_S_nth : forall {A} i (K : list A) y, nth_error K i = Some y -> firstn (S i) K = firstn i K ++ [y].
+  Proof.
+    induction i as [|i IH]; intros K y H; destruct K as [|a K]; try discriminate.
+    - cbn in H. injection H as <-. reflexivity.
+    - cbn [nth_error] in H. change (firstn (S (S i)) (a :: K)) with (a :: firstn (S i) K). rewrite (IH K y H). reflexivity.
+  Qed.
+  Lemma blk_snoc : forall K h y, gh < h -> nth_error K (N.to_nat (h - gh - 1)) = Some y ->
+    blk K h = blk K (h - 1) ++ [y].
+  Proof.
+    intros K h y Hh H. unfold blk. replace (N.to_nat (h - gh)) with (S (N.to_nat (h - gh - 1))) by lia.
+    replace (N.to_nat (h - 1 - gh)) with (N.to_nat (h - gh - 1)) by lia. apply firstn_S_nth. exact H.
+  Qed.
+  Lemma blk_last : forall K h y, gh < h -> nth_error K (N.to_nat (h - gh - 1)) = Some y -> lastH (blk K h) = fst y.
+  Proof. intros K h y Hh H. rewrite (blk_snoc K h y Hh H). apply lastH_snoc. Qed.
+  Lemma blk_nonempty : forall K h y, gh < h -> nth_error K (N.to_nat (h - gh - 1)) = Some y -> blk K h <> [].
+  Proof. intros K h y Hh H. rewrite (blk_snoc K h y Hh H). intros E. symmetry in E. apply app_cons_not_nil in E. exact E. Qed.
+  Lemma blk_full : forall K, blk K (tipof K) = K.
+  Proof. intros K. unfold blk, tipof. replace (N.to_nat (gh + N.of_nat (length K) - gh)) with (length K) by lia. apply firstn_all. Qed.
+  Lemma blk_prefix : forall K h, prefix (blk K h) K.
+  Proof. intros. apply firstn_prefix. Qed.
+  Lemma blk_le : forall K h h', h <= h' -> prefix (blk K h) (blk K h').
+  Proof. intros. apply firstn_prefix_le. lia. Qed.
+  Lemma blk_of_prefix : forall P K h, prefix P K -> h <= tipof P -> blk P h = blk K h.
+  Proof. intros P K h Hp Hh. unfold blk. apply prefix_firstn_of; [exact Hp|]. unfold tipof in Hh. lia. Qed.
+  Lemma blk_length : forall K h, h <= tipof K -> length (blk K h) = N.to_nat (h - gh).
+  Proof. intros K h H. unfold blk. rewrite firstn_length. unfold tipof in H. lia. Qed.
+
+  Lemma static_eq : forall a b, static a = static b ->
+    i_height a = i_height b /\ i_gen a = i_gen b /\ i_mhg a = i_mhg b /\ i_mhp a = i_mhp b.
+  Proof. intros a b H. unfold static in H. injection H as H1 H2 H3 H4. auto. Qed.
+  Lemma static_hdr_eq : forall y a, static_hdr y = static a ->
+    h_height y = i_height a /\ h_gen y = i_gen a /\ h_mhg y = i_mhg a /\ h_mhp y = i_mhp a.
+  Proof. intros y a H. unfold static, static_hdr in H. injection H as H1 H2 H3 H4. auto. Qed.
+
+  Lemma Forall2_in_l : forall {A B} (P : A -> B -> Prop) l l' a, Forall2 P l l' -> In a l -> exists b, In b l' /\ P a b.
+  Proof.
+    intros A B P l l' a H. induction H as [|a0 b0 l l' Hab H IH]; intros Hin; [contradiction|].
+    destruct Hin as [<-|Hin]; [exists b0; split; [left; reflexivity|exact Hab]|].
+    destruct (IH Hin) as (b1 & Hb & Hp). exists b1. split; [right; exact Hb|exact Hp].
+  Qed.
+  Lemma NoDup_snoc : forall {A} (l : list A) g, NoDup l -> ~ In g l -> NoDup (l ++ [g]).
+  Proof.
+    intros A l g H. induction H as [|a l Hn H IH]; intros Hg; cbn [app]; [constructor; [intros []|constructor]|].
+    constructor.
+    - intros Hin. apply in_app_or in Hin. destruct Hin as [Hin|[<-|[]]]; [contradiction|]. apply Hg. left; reflexivity.
+    - apply IH. intros Hin. apply Hg. right; exact Hin.
+  Qed.
+
+  (* ---------------------------------------------------------------- ghost contributions *)
+  Definition genb (x : block) : addr := h_gen (fst x).
+  (* header [b] prevotes for height [he] *)
+  Definition pvh (b : hdr) (he : N) : bool := (h_mhg b <? h_height b) && (h_mhg b + 1 <=? he) && (he <=? h_height b).
+  Definition pvl (K : chain) (he : N) : chain := filter (fun x => pvh (fst x) he) K.
+
+  (* in the view of chain T the window entry of height h reaches the threshold (prevote: sel = p_pv, get = i_pv) *)
+  Definition qrm (sel : params -> N) (get : info -> N) (T : chain) (h : N) : Prop :=
+    exists s e, view T = Some s /\ In e (window s) /\ i_height e = h /\ sel p0 <= get e.
+
+  (* evidence that the last block of P carried a precommit of its generator for height he *)
+  Definition pc_ev (he : N) (P : chain) : Prop :=
+    P <> [] /\ he <= mhpC P /\ qrm p_pv i_pv (removelast P) he /\
+    exists rest, linked chain addr hgt mhgC genC (@prefix block) (genC P) (blk P he) (P :: rest) /\
+                 Forall (fun Q => prefix Q P /\ Q <> []) rest.
+
+  Definition WInv (K : chain) (w : list info) : Prop :=
+    forall e, In e w -> gh < i_height e /\
+      exists y, nth_error K (N.to_nat (i_height e - gh - 1)) = Some y /\ static_hdr (fst y) = static e.
+
+  Record CInv (K : chain) (s : store) : Prop := {
+    ci_params : s_params s = ps0;
+    ci_vgood : vgood (tipof K) s;
+    ci_act : AInv (v_act (s_votes s));
+    ci_hdrs : forall j y, nth_error K j = Some y -> snd y = None /\ h_height (fst y) = gh + N.of_nat j + 1;
+    ci_win : WInv K (window s);
+    ci_maxpv : forall e, In e (window s) -> p_pv p0 <= i_pv e -> i_height e <= v_mhp (s_votes s);
+    ci_pv : forall e, In e (window s) ->
+            i_pv e = wsum vals (map genb (pvl K (i_height e))) /\ NoDup (map genb (pvl K (i_height e)));
+    ci_pc : forall e, In e (window s) -> exists L,
+            i_pc e = wsum vals (map genC L) /\ NoDup (map genC L) /\
+            forall P, In P L -> prefix P K /\ pc_ev (i_height e) P /\ i_height e <= lhp (v_act (s_votes s)) (genC P);
+  }.
+
+  Lemma ilinked_linked : forall K' w, WInv K' w ->
+    forall g he run, hgt (blk K' he) = he -> (forall Q, In Q run -> In Q w) -> ilinked g he run ->
+    linked chain addr hgt mhgC genC (@prefix block) g (blk K' he) (map (fun x => blk K' (i_height x)) run) /\
+    Forall (fun Q => prefix Q K' /\ Q <> []) (map (fun x => blk K' (i_height x)) run).
+  Proof.
+    intros K' w HW g he run Hhe. induction run as [|P run IH]; intros Hin Hl; [contradiction|].
+    assert (HP : hgt (blk K' (i_height P)) = i_height P /\ mhgC (blk K' (i_height P)) = i_mhg P /\
+                 genC (blk K' (i_height P)) = i_gen P /\ blk K' (i_height P) <> []).
+    { destruct (HW P (Hin P (or_introl eq_refl))) as (Hgh & y & Hy & Hs). apply static_hdr_eq in Hs.
+      unfold hgt, mhgC, genC. rewrite (blk_last _ _ _ Hgh Hy). destruct Hs as (A1 & A2 & A3 & A4).
+      repeat split; auto. eapply blk_nonempty; eauto. }
+    destruct HP as (HP1 & HP2 & HP3 & HP4).
+    destruct run as [|Q rest].
+    - cbn [map]. cbn [ilinked] in Hl. destruct Hl as (L1 & L2 & L3). split.
+      + cbn [linked]. rewrite HP2, HP3. split; [exact L1|]. split; [apply blk_le; exact L2|].
+        rewrite Hhe. exact L3.
+      + constructor; [|constructor]. split; [apply blk_prefix|exact HP4].
+    - assert (Hl' := Hl). apply ilinked_cons2 in Hl'. destruct Hl' as (L1 & L2 & L3 & L4 & L5).
+      destruct (IH (fun Q0 H0 => Hin Q0 (or_intror H0)) L5) as (IH1 & IH2).
+      split.
+      + change (map (fun x => blk K' (i_height x)) (P :: Q :: rest))
+          with (blk K' (i_height P) :: map (fun x => blk K' (i_height x)) (Q :: rest)).
+        assert (HQ : hgt (blk K' (i_height Q)) = i_height Q).
+        { destruct (HW Q (Hin Q (or_intror (or_introl eq_refl)))) as (Hgh & y & Hy & Hs). apply static_hdr_eq in Hs.
+          unfold hgt. rewrite (blk_last _ _ _ Hgh Hy). tauto. }
+        cbn [map] in IH1 |- *. apply linked_cons2. rewrite HP1, HP2, HP3, HQ.
+        split; [exact L1|]. split; [apply blk_le; exact L2|]. split; [exact L3|]. split; [exact L4|exact IH1].
+      + constructor; [split; [apply blk_prefix|exact HP4]|exact IH2].
+  Qed.
+
+  Lemma pvl_nil : forall K he, (forall y, In y K -> h_height (fst y) < he) -> pvl K he = [].
+  Proof.
+    intros K he H. destruct (pvl K he) as [|y l] eqn:E; [reflexivity|]. exfalso.
+    assert (Hy : In y (pvl K he)) by (rewrite E; left; reflexivity). unfold pvl in Hy. apply filter_In in Hy.
+    destruct Hy as [Hy Hp]. specialize (H y Hy). unfold pvh in Hp. lia.
+  Qed.
+
+  Lemma cinv_nil : CInv [] s0.
+  Proof.
+    destruct init_shape as (Hps & Hw & Hmp & Hmpc & HA & Hpv & Hpc).
+    constructor.
+    - exact Hps.
+    - replace (tipof []) with gh by (unfold tipof; cbn; lia). eapply init_vgood; exact Hinit.
+    - exact HA.
+    - intros j y H. destruct j; discriminate.
+    - rewrite Hw. intros e [].
+    - rewrite Hw. intros e [].
+    - rewrite Hw. intros e [].
+    - rewrite Hw. intros e [].
+  Qed.
+
+  Lemma cinv_step : forall K s b s1, view K = Some s -> CInv K s -> h_height b = tipof K + 1 -> bft_valid s b = true ->
+    before_txs batch s b = Ok s1 -> CInv (K ++ [(b, None)]) s1.
+  Proof.
+    intros K s b s1 Hv HC Hb Hval Hbt.
+    set (x := (b, None) : block). set (K' := K ++ [x]).
+    assert (Htip' : tipof K' = tipof K + 1) by (unfold tipof, K'; rewrite app_length; cbn; lia).
+    assert (Hgt : gh <= tipof K) by (unfold tipof; lia).
+    destruct HC as [Cps Cvg Cact Chd Cwin Cmax Cpv Cpc].
+    pose proof Cvg as ((HI & Hmp & Hmpc) & Hlc & Hmb).
+    assert (Hap : apply_block batch s x = Ok s1) by (unfold apply_block, x; rewrite Hbt; reflexivity).
+    pose proof (valid_block_step batch s x s1 (tipof K) Hbatch Cvg Hb Hval Hap) as Hvg1.
+    destruct (before_txs_window _ _ _ _ Hbt) as (r & act' & pv & pcx & Hu & Hw & Hact & _ & _ & _ & _ & _ & Hps).
+    rewrite Cps in Hu, Hps. rewrite prune_ps0 in Hps.
+    unfold insert_info in Hu.
+    destruct (3 * batch)%nat as [|n] eqn:En; [lia|]. cbn [firstn] in Hu.
+    set (nw := new_info b) in *. set (tl := firstn n (window s)) in *. set (act := v_act (s_votes s)) in *.
+    assert (Hnwh : i_height nw = tipof K + 1) by exact Hb.
+    assert (Hh0 : hts (nw :: tl) (tipof K + 1)).
+    { change (nw :: tl) with (firstn (S n) (nw :: window s)). apply hts_firstn. apply hts_cons; [apply HI|exact Hb]. }
+    assert (Htl : forall a, In a tl -> In a (window s)) by (intros a Ha; eapply In_firstn_in; exact Ha).
+    assert (Hgh0 : forall a, In a (nw :: tl) -> gh < i_height a).
+    { intros a [<-|Ha]; [lia|]. apply (Cwin a (Htl a Ha)). }
+    destruct (update_votes_static nw tl act r act' (hts_desc _ _ Hh0) Hgh0 Cact Hu) as (HF & HA' & Hmono & Hlhp).
+    assert (HKK' : forall j y, nth_error K j = Some y -> nth_error K' j = Some y).
+    { intros j y Hy. unfold K'. rewrite nth_error_app1; [exact Hy|]. apply nth_error_Some. congruence. }
+    assert (HW0 : WInv K' (nw :: tl)).
+    { intros a Ha. split; [apply Hgh0; exact Ha|]. destruct Ha as [<-|Ha].
+      - exists x. split; [|reflexivity]. rewrite Hnwh. unfold K', tipof.
+        replace (N.to_nat (gh + N.of_nat (length K) + 1 - gh - 1)) with (length K) by lia.
+        rewrite nth_error_app2 by lia. rewrite Nat.sub_diag. reflexivity.
+      - destruct (Cwin a (Htl a Ha)) as (_ & y & Hy & Hs). exists y. split; [apply HKK'; exact Hy|exact Hs]. }
+    assert (Hsrc : forall e1, In e1 r -> exists a, In a (nw :: tl) /\ upd_rel (nw :: tl) act nw a e1).
+    { intros e1 He. apply (Forall2_in_r _ _ _ _ HF He). }
+    assert (Hhgt : forall a, In a (nw :: tl) -> hgt (blk K' (i_height a)) = i_height a).
+    { intros a Ha. destruct (HW0 a Ha) as (Hg & y & Hy & Hs). apply static_hdr_eq in Hs. unfold hgt.
+      rewrite (blk_last _ _ _ Hg Hy). tauto. }
+    assert (HinK : forall y, In y K -> h_height (fst y) <= tipof K).
+    { intros y Hy. apply In_nth_error in Hy. destruct Hy as [j Hj]. destruct (Chd j y Hj) as [_ ->].
+      assert (j < length K)%nat by (apply nth_error_Some; congruence). unfold tipof. lia. }
+    (* shape of the new window *)
+    assert (Hr : exists e_nw r_tl, r = e_nw :: r_tl /\ upd_rel (nw :: tl) act nw nw e_nw /\
+                                  Forall2 (upd_rel (nw :: tl) act nw) tl r_tl).
+    { inversion HF as [|? e_nw ? r_tl H1 H2]; subst. exists e_nw, r_tl. auto. }
+    destruct Hr as (e_nw & r_tl & Er & Hunw & HFtl).
+    change (CInv K' s1). constructor.
+    - exact Hps.
+    - rewrite Htip'. exact Hvg1.
+    - rewrite Hact. exact HA'.
+    - intros j y Hy. unfold K' in Hy. destruct (Nat.lt_ge_cases j (length K)) as [Hlt|Hge].
+      + rewrite nth_error_app1 in Hy by exact Hlt. apply Chd; exact Hy.
+      + rewrite nth_error_app2 in Hy by exact Hge. destruct (j - length K)%nat as [|m] eqn:Ej.
+        * cbn in Hy. injection Hy as <-. split; [reflexivity|]. cbn [fst x]. rewrite Hb. unfold tipof. lia.
+        * destruct m; discriminate.
+    - intros e1 He. rewrite Hw in He. destruct (Hsrc e1 He) as (a & Ha & (Hs & _)).
+      destruct (static_eq _ _ Hs) as (E1 & _). destruct (HW0 a Ha) as (Hg & y & Hy & Hsy).
+      split; [lia|]. exists y. rewrite E1, Hs. split; assumption.
+    - intros e1 He Hq. destruct (heights_are_max_quorum batch s b s1 (tipof K) Hbatch HI Hb Hbt) as [Hmq _].
+      assert (Hm : meets (s_params s) p_pv i_pv e1).
+      { rewrite Cps. apply meets_ps0. split; [|exact Hq]. rewrite Hw in He.
+        destruct (Hsrc e1 He) as (a & Ha & (Hs & _)). destruct (static_eq _ _ Hs) as (E1 & _). specialize (Hgh0 a Ha). lia. }
+      destruct Hmq as [[_ Hall]|[_ Hnone]]; [apply Hall; assumption|exfalso; eapply Hnone; eauto].
+    - (* prevote decomposition *)
+      intros e1 He. rewrite Hw in He. destruct (Hsrc e1 He) as (a & Ha & (Hs & Hpv1 & _)).
+      destruct (static_eq _ _ Hs) as (E1 & _). rewrite E1, Hpv1. clear Hpv1.
+      assert (Hhe : i_height a <= tipof K + 1) by (apply (hts_in_le _ _ _ Hh0 Ha)).
+      assert (Hpvl : pvl K' (i_height a) = pvl K (i_height a) ++ (if pvh b (i_height a) then [x] else [])).
+      { unfold pvl, K'. rewrite filter_app. cbn [filter fst x]. destruct (pvh b (i_height a)); reflexivity. }
+      assert (Hpvb : pvb nw (i_height a) = pvh b (i_height a)).
+      { unfold pvb, pvh. change (i_mhg nw) with (h_mhg b). change (i_height nw) with (h_height b).
+        assert (i_height a <=? h_height b = true) as -> by lia. rewrite andb_true_r. reflexivity. }
+      assert (Hold : i_pv a = wsum vals (map genb (pvl K (i_height a))) /\ NoDup (map genb (pvl K (i_height a)))).
+      { destruct Ha as [<-|Ha].
+        - rewrite pvl_nil; [split; [reflexivity|constructor]|]. intros y Hy. specialize (HinK y Hy). lia.
+        - apply Cpv. apply Htl; exact Ha. }
+      destruct Hold as [Hold1 Hold2]. rewrite Hpvl, map_app, wsum_app, Hpvb, <- Hold1.
+      destruct (pvh b (i_height a)) eqn:Epv.
+      + cbn [map]. split; [rewrite wsum_cons; change (wsum vals []) with 0; unfold wt, genb; cbn [fst x]; change (i_gen nw) with (h_gen b); lia|].
+        apply NoDup_snoc; [exact Hold2|]. intros Hin.
+        apply in_map_iff in Hin. destruct Hin as (y & Hgy & Hy). unfold pvl in Hy. apply filter_In in Hy.
+        destruct Hy as [HyK Hpvy]. pose proof (HinK y HyK) as Hyle.
+        apply In_nth_error in HyK. destruct HyK as [j Hj]. destruct (Chd j y Hj) as (_ & Hhy).
+        assert (Hrange : i_height a <= h_height (fst y) <= tipof K + 1) by (unfold pvh in Hpvy; lia).
+        destruct (hts_nth_height (nw :: tl) (tipof K + 1) (h_height (fst y)) a Hh0 Ha Hrange) as (xe & Hxe & Hxeh).
+        assert (Hxin : In xe (nw :: tl)) by (eapply nth_error_In; exact Hxe).
+        destruct (HW0 xe Hxin) as (_ & y' & Hy' & Hsy').
+        assert (y' = y).
+        { rewrite Hxeh, Hhy in Hy'. replace (N.to_nat (gh + N.of_nat j + 1 - gh - 1)) with j in Hy' by lia.
+          rewrite (HKK' j y Hj) in Hy'. congruence. }
+        subst y'. apply static_hdr_eq in Hsy'. destruct Hsy' as (_ & Sg & _).
+        destruct Hxin as [Hxnw|Hxtl]; [subst xe; lia|].
+        destruct (Forall2_in_l _ _ _ _ HFtl Hxtl) as (ex & Hex & (Hsx & _)).
+        destruct (static_eq _ _ Hsx) as (X1 & X2 & _).
+        destruct Hunw as (Hsn & _). destruct (static_eq _ _ Hsn) as (_ & N2 & N3 & _).
+        destruct Hvg1 as (_ & Hlc1 & _). rewrite Hw, Er in Hlc1. destruct Hlc1 as [Hlc1 _].
+        assert (Hls : legit_successor (bh_of_info ex) (bh_of_info e_nw)).
+        { apply Hlc1; [exact Hex|]. rewrite X2, N2. change (i_gen nw) with (h_gen b). unfold genb, x in Hgy. cbn [fst] in Hgy. congruence. }
+        unfold legit_successor, bh_of_info in Hls; cbn in Hls. rewrite N3, X1 in Hls. change (i_mhg nw) with (h_mhg b) in Hls.
+        unfold pvh in Epv. lia.
+      + cbn [map]. rewrite app_nil_r. split; [change (wsum vals []) with 0; lia|exact Hold2].
+    - (* precommit decomposition *)
+      intros e1 He. rewrite Hw in He. destruct (Hsrc e1 He) as (a & Ha & (Hs & _ & Hpc1)).
+      destruct (static_eq _ _ Hs) as (E1 & _). rewrite E1, Hpc1, Hact. clear Hpc1.
+      destruct init_shape as (_ & _ & _ & _ & _ & Hpv1 & _).
+      destruct Ha as [<-|Ha].
+      { exists []. assert (pcb nw (nw :: tl) act nw = false) as ->.
+        { unfold pcb. destruct (find_active act (i_gen nw)); [|apply andb_false_r].
+          change (i_pv nw) with 0. assert (p_pv p0 <=? 0 = false) as -> by lia. rewrite !andb_false_r. reflexivity. }
+        split; [cbn; change (i_pc nw) with 0; lia|]. split; [constructor|intros P []]. }
+      destruct (Cpc a (Htl a Ha)) as (L & HL1 & HL2 & HL3).
+      destruct (pcb nw (nw :: tl) act a) eqn:Epc.
+      2:{ exists L. split; [lia|]. split; [exact HL2|]. intros P HP. destruct (HL3 P HP) as (P1 & P2 & P3).
+          split; [eapply prefix_trans; [exact P1|exists [x]; reflexivity]|]. split; [exact P2|].
+          specialize (Hmono (genC P)). fold act in P3. lia. }
+      (* the new block precommits for a *)
+      pose proof Epc as Epc'. unfold pcb in Epc'.
+      destruct (find_active act (i_gen nw)) as [vi|] eqn:Ea; [|rewrite andb_false_r in Epc'; discriminate].
+      assert (Hvote : i_mhg nw < i_height nw) by lia.
+      assert (Hminpc : Nmax3 (a_min vi) (height_not_prevoted (nw :: tl) + 1) (a_lhp vi + 1) <= i_height a) by lia.
+      assert (Hq : p_pv p0 <= i_pv a) by lia.
+      unfold Nmax3 in Hminpc.
+      assert (HgK' : genC K' = h_gen b) by (unfold genC, K'; rewrite lastH_snoc; reflexivity).
+      exists (K' :: L). split; [|split].
+      + cbn [map]. rewrite wsum_cons, HgK'. unfold wt. change (i_gen nw) with (h_gen b). lia.
+      + cbn [map]. constructor; [|exact HL2]. intros Hin. apply in_map_iff in Hin. destruct Hin as (P & HgP & HP).
+        destruct (HL3 P HP) as (_ & _ & P3). fold act in P3. rewrite HgP, HgK' in P3. unfold lhp in P3.
+        change (i_gen nw) with (h_gen b) in Ea. rewrite Ea in P3. lia.
+      + intros P [<-|HP].
+        2:{ destruct (HL3 P HP) as (P1 & P2 & P3).
+            split; [eapply prefix_trans; [exact P1|exists [x]; reflexivity]|]. split; [exact P2|].
+            specialize (Hmono (genC P)). fold act in P3. lia. }
+        split; [apply prefix_refl|]. split.
+        * unfold pc_ev. split; [unfold K'; intros E; symmetry in E; apply app_cons_not_nil in E; exact E|].
+          split.
+          { unfold mhpC, K'. rewrite lastH_snoc. cbn [fst x].
+            unfold bft_valid in Hval. apply andb_prop in Hval. destruct Hval as [Hv1 _]. apply N.eqb_eq in Hv1. rewrite Hv1.
+            apply Cmax; [apply Htl; exact Ha|exact Hq]. }
+          split.
+          { unfold K'. rewrite removelast_last. exists s, a. repeat split; auto. }
+          assert (Hhnp : hnp_loop (S (length (nw :: tl))) (nw :: tl) (i_gen nw) (i_height nw) (i_mhg nw) < i_height a).
+          { unfold height_not_prevoted in Hminpc. lia. }
+          assert (Hle : i_height a <= i_height nw) by (pose proof (hts_in_le _ _ _ Hh0 (or_intror Ha)); lia).
+          rewrite Hnwh in Hhnp at 1.
+          destruct (hnp_linked _ _ _ _ (i_height a) a Hh0 (or_intror Ha) eq_refl (i_mhg nw) nw
+                      (or_introl eq_refl) eq_refl eq_refl Hvote Hle Hhnp) as (run & Hrun & Hrin).
+          assert (Hall : forall Q, In Q (nw :: run) -> In Q (nw :: tl)).
+          { intros Q [<-|HQ]; [left; reflexivity|apply Hrin; exact HQ]. }
+          destruct (ilinked_linked K' (nw :: tl) HW0 (i_gen nw) (i_height a) (nw :: run) (Hhgt a (or_intror Ha)) Hall Hrun)
+            as (Hlk & Hfa).
+          cbn [map] in Hlk, Hfa. rewrite Hnwh, <- Htip', blk_full in Hlk, Hfa.
+          exists (map (fun x0 => blk K' (i_height x0)) run). split.
+          { rewrite HgK'. exact Hlk. }
+          { inversion Hfa; assumption. }
+        * rewrite HgK'. apply Hlhp; [right; exact Ha|exact Epc].
+  Qed.
+
+  Theorem cinv_view : forall K s, view K = Some s -> CInv K s.
+  Proof.
+    apply (view_ind0 CInv); [exact cinv_nil|]. intros K s b s1 Hv HC Hb Hval Hbt. eapply cinv_step; eauto.
+  Qed.
+
+  Lemma view_ind : forall (Q : chain -> store -> Prop), Q [] s0 ->
+    (forall K s b s1, view K = Some s -> CInv K s -> Q K s -> h_height b = tipof K + 1 -> bft_valid s b = true ->
+                      before_txs batch s b = Ok s1 -> view (K ++ [(b, None)]) = Some s1 -> Q (K ++ [(b, None)]) s1) ->
+    forall K s, view K = Some s -> Q K s.
+  Proof.
+    intros Q Q0 QS. apply (view_ind0 Q); [exact Q0|]. intros K s b s1 Hv HQ Hb Hval Hbt.
+    apply QS with (s := s); auto; [apply cinv_view; exact Hv|].
+    apply view_snoc. exists s. split; [exact Hv|apply step_intro; assumption].
+  Qed.
+
+  (* P3 (and its precommit analogue): maxHeightPrevoted / maxHeightPrecommited above genesis are witnessed by a quorum
+     in the view of some prefix of the chain *)
+  Theorem quorum_witness : forall K s, view K = Some s ->
+    (gh < v_mhp (s_votes s) -> exists T', prefix T' K /\ qrm p_pv i_pv T' (v_mhp (s_votes s))) /\
+    (gh < v_mhpc (s_votes s) -> exists T', prefix T' K /\ qrm p_pc i_pc T' (v_mhpc (s_votes s))).
+  Proof.
+    apply (view_ind (fun K s =>
+      (gh < v_mhp (s_votes s) -> exists T', prefix T' K /\ qrm p_pv i_pv T' (v_mhp (s_votes s))) /\
+      (gh < v_mhpc (s_votes s) -> exists T', prefix T' K /\ qrm p_pc i_pc T' (v_mhpc (s_votes s))))).
+    - destruct init_shape as (_ & _ & Hmp & Hmpc & _). rewrite Hmp, Hmpc. split; intros H; lia.
+    - intros K s b s1 Hv HC [IH1 IH2] Hb Hval Hbt Hv1.
+      pose proof (ci_vgood _ _ HC) as ((HI & _) & _).
+      destruct (heights_are_max_quorum batch s b s1 (tipof K) Hbatch HI Hb Hbt) as [Hq1 Hq2].
+      rewrite (ci_params _ _ HC) in Hq1, Hq2.
+      assert (Hpre : forall T', prefix T' K -> prefix T' (K ++ [(b, None)])).
+      { intros T' HT. eapply prefix_trans; [exact HT|]. exists [(b, None)]. reflexivity. }
+      split; intros Hgt.
+      + destruct Hq1 as [[(bi & Hbi & Hbh & Hm) _]|[E _]].
+        * exists (K ++ [(b, None)]). split; [apply prefix_refl|]. apply meets_ps0 in Hm. exists s1, bi. tauto.
+        * rewrite E in Hgt |- *. destruct (IH1 Hgt) as (T' & HT & Hq). exists T'. split; [apply Hpre; exact HT|exact Hq].
+      + destruct Hq2 as [[(bi & Hbi & Hbh & Hm) _]|[E _]].
+        * exists (K ++ [(b, None)]). split; [apply prefix_refl|]. apply meets_ps0 in Hm. exists s1, bi. tauto.
+        * rewrite E in Hgt |- *. destruct (IH2 Hgt) as (T' & HT & Hq). exists T'. split; [apply Hpre; exact HT|exact Hq].
+  Qed.
+
+  (* ---------------------------------------------------------------- facts about valid chains used by the instantiation *)
+  Lemma window_heights : forall K s e, view K = Some s -> In e (window s) -> gh < i_height e <= tipof K.
+  Proof.
+    intros K s e Hv He. pose proof (cinv_view _ _ Hv) as HC. split; [apply (ci_win _ _ HC e He)|].
+    pose proof (ci_vgood _ _ HC) as ((HI & _) & _). apply (hts_in_le _ _ _ (inv_hts _ _ HI) He).
+  Qed.
+  Lemma window_unique : forall K s e e', view K = Some s -> In e (window s) -> In e' (window s) ->
+    i_height e = i_height e' -> e = e'.
+  Proof.
+    intros K s e e' Hv He He' E. pose proof (cinv_view _ _ Hv) as HC.
+    pose proof (ci_vgood _ _ HC) as ((HI & _) & _). eapply hts_unique; eauto. apply (inv_hts _ _ HI).
+  Qed.
+  Lemma qrm_heights : forall sel get T h, qrm sel get T h -> gh < h <= tipof T /\ T <> [].
+  Proof.
+    intros sel get T h (s & e & Hv & He & Hh & _). pose proof (window_heights _ _ _ Hv He) as Hr. split; [lia|].
+    intros ->. unfold tipof in Hr. cbn in Hr. lia.
+  Qed.
+  Lemma valid_hgt : forall K s, view K = Some s -> K <> [] -> hgt K = tipof K.
+  Proof.
+    intros K s Hv Hne. pose proof (cinv_view _ _ Hv) as HC. destruct (exists_last Hne) as (K0 & y & ->).
+    unfold hgt. rewrite lastH_snoc.
+    assert (Hy : nth_error (K0 ++ [y]) (length K0) = Some y) by (rewrite nth_error_app2, Nat.sub_diag by lia; reflexivity).
+    destruct (ci_hdrs _ _ HC _ _ Hy) as [_ ->]. unfold tipof. rewrite app_length. cbn. lia.
+  Qed.
+  Lemma valid_last_mhp : forall K s, view K = Some s -> K <> [] ->
+    exists s', view (removelast K) = Some s' /\ mhpC K = v_mhp (s_votes s').
+  Proof.
+    intros K s Hv Hne. destruct (exists_last Hne) as (K0 & y & ->). rewrite removelast_last.
+    apply view_snoc in Hv. destruct Hv as (s' & Hv' & Hs). apply step_some in Hs. destruct Hs as (b & -> & _ & Hval & _).
+    exists s'. split; [exact Hv'|]. unfold mhpC. rewrite lastH_snoc. cbn [fst].
+    unfold bft_valid in Hval. apply andb_prop in Hval. destruct Hval as [H1 _]. lia.
+  Qed.
+  Lemma blk_hgt : forall K s h, view K = Some s -> gh < h <= tipof K -> hgt (blk K h) = h /\ blk K h <> [].
+  Proof.
+    intros K s h Hv Hr. pose proof (cinv_view _ _ Hv) as HC.
+    assert (Hlt : (N.to_nat (h - gh - 1) < length K)%nat) by (unfold tipof in Hr; lia).
+    apply nth_error_Some in Hlt. destruct (nth_error K (N.to_nat (h - gh - 1))) as [y|] eqn:Ey; [|congruence].
+    split; [|eapply blk_nonempty; [|exact Ey]; lia]. unfold hgt. rewrite (blk_last K h y) by (auto; lia).
+    destruct (ci_hdrs _ _ HC _ _ Ey) as [_ ->]. lia.
+  Qed.
+
+  Lemma mhpc_le_tip : forall K s, view K = Some s -> v_mhpc (s_votes s) <= tipof K /\ v_mhp (s_votes s) <= tipof K.
+  Proof. intros K s Hv. pose proof (ci_vgood _ _ (cinv_view _ _ Hv)) as ((_ & H1 & H2) & _). split; assumption. Qed.
+
+  (* ---------------------------------------------------------------- valid_chain, declaratively *)
+  Lemma run_blocks_app : forall l1 l2 s, run_blocks batch s (l1 ++ l2) =
+    match run_blocks batch s l1 with Ok s' => run_blocks batch s' l2 | Error e => Error e end.
+  Proof.
+    induction l1 as [|x l1 IH]; intros l2 s; cbn [app run_blocks]; [reflexivity|].
+    destruct (apply_block batch s x) as [s'|e]; cbn [bind]; [apply IH|reflexivity].
+  Qed.
+
+  (* a chain is valid iff no block carries a parameter change, heights are consecutive from gh+1, every header
+     satisfies the two BFT rules of verifyBlock in the view of the blocks before it, and run_blocks succeeds *)
+  Definition valid_chain_decl (K : chain) : Prop :=
+    (forall j x, nth_error K j = Some x ->
+       snd x = None /\ h_height (fst x) = gh + N.of_nat j + 1 /\
+       exists s, run_blocks batch s0 (firstn j K) = Ok s /\ bft_valid s (fst x) = true) /\
+    exists s, run_blocks batch s0 K = Ok s.
+
+  Lemma view_run_blocks : forall K s, view K = Some s -> run_blocks batch s0 K = Ok s.
+  Proof. intros K s H. apply (vrun_run_blocks K s0 gh s H). Qed.
+
+  Theorem valid_chain_spec : forall K, valid_chain K <-> valid_chain_decl K.
+  Proof.
+    intros K. split.
+    - intros H. unfold valid_chain in H. destruct (view K) as [s|] eqn:Hv; [clear H|congruence].
+      revert K s Hv. apply (view_ind0 (fun K s => valid_chain_decl K /\ run_blocks batch s0 K = Ok s)).
+      { split; [split; [intros j x H; destruct j; discriminate|exists s0; reflexivity]|reflexivity]. }
+      intros K s b s1 Hv [[IH _] Hrun] Hb Hval Hbt.
+      assert (Hrun1 : run_blocks batch s0 (K ++ [(b, None)]) = Ok s1).
+      { rewrite run_blocks_app, Hrun. cbn [run_blocks apply_block]. rewrite Hbt. reflexivity. }
+      split; [|exact Hrun1]. split; [|exists s1; exact Hrun1].
+      intros j x Hx. destruct (Nat.lt_ge_cases j (length K)) as [Hlt|Hge].
+      + rewrite nth_error_app1 in Hx by exact Hlt. rewrite firstn_app. replace (j - length K)%nat with 0%nat by lia.
+        cbn [firstn]. rewrite app_nil_r. apply IH; exact Hx.
+      + rewrite nth_error_app2 in Hx by exact Hge. destruct (j - length K)%nat as [|m] eqn:Ej; [|destruct m; discriminate].
+        cbn in Hx. injection Hx as <-. assert (j = length K) by lia. subst j.
+        rewrite firstn_app, Nat.sub_diag, firstn_all. cbn [firstn fst snd]. rewrite app_nil_r.
+        split; [reflexivity|]. split; [unfold tipof in Hb; exact Hb|]. exists s. split; assumption.
+    - induction K as [|x K IH] using rev_ind; intros [Hall [s1 Hrun]]; [unfold valid_chain; rewrite view_nil; discriminate|].
+      assert (HK : valid_chain_decl K).
+      { rewrite run_blocks_app in Hrun. destruct (run_blocks batch s0 K) as [s|e] eqn:Er; [|discriminate].
+        split; [|exists s; exact Er]. intros j y Hy.
+        assert (Hlt : (j < length K)%nat) by (apply nth_error_Some; intros E; assert (E2 : Some y = None) by (etransitivity; [symmetry; exact Hy|exact E]); discriminate E2).
+        specialize (Hall j y). rewrite nth_error_app1 in Hall by exact Hlt. specialize (Hall Hy).
+        rewrite firstn_app in Hall. replace (j - length K)%nat with 0%nat in Hall by lia. cbn [firstn] in Hall.
+        rewrite app_nil_r in Hall. exact Hall. }
+      specialize (IH HK). unfold valid_chain in IH. destruct (view K) as [s|] eqn:Hv; [clear IH|congruence].
+      pose proof (view_run_blocks K s Hv) as Hr.
+      assert (Hx : nth_error (K ++ [x]) (length K) = Some x) by (rewrite nth_error_app2, Nat.sub_diag by lia; reflexivity).
+      destruct (Hall _ _ Hx) as (Hn & Hh & s' & Hr' & Hval).
+      rewrite firstn_app, Nat.sub_diag, firstn_all in Hr'. cbn [firstn] in Hr'. rewrite app_nil_r in Hr'.
+      rewrite Hr in Hr'. injection Hr' as <-.
+      rewrite run_blocks_app, Hr in Hrun. destruct x as [b chg]. cbn [snd fst] in *. subst chg.
+      cbn [run_blocks apply_block] in Hrun. destruct (before_txs batch s b) as [s2|e] eqn:Eb; [|discriminate].
+      assert (Hv1 : view (K ++ [(b, None)]) = Some s2).
+      { apply view_snoc. exists s. split; [exact Hv|]. apply step_intro; auto. }
+      unfold valid_chain. intros E. assert (E2 : Some s2 = None) by (etransitivity; [symmetry; exact Hv1|exact E]). discriminate E2.
+  Qed.
 End Static.
